@@ -360,8 +360,8 @@ def run(tier, seed):
     rcases = random_cases(ctx, 20000 if tier == "quick" else core.share(2000000))
     legs = ["dev", "release"]
     for leg in legs:
-        cs = cases if (leg == "dev" or tier == "thorough") else cases[::7]
-        rs = rcases if (leg == "dev" or tier == "thorough") else rcases[::4]
+        # both build profiles see every case: without overflow checks a wrapped i32 is a wrong exact number where the dev build panics
+        cs, rs = cases, rcases
         run_leg(ctx, leg, g, cs, rs, tier)
         ctx.legs.append(leg)
     ctx.exhaustive = True
